@@ -21,7 +21,7 @@ COMMIT_FMTS = ['https://example.com/c/{commit}', 'c://{commit}/x/{commit}', 'htt
 
 
 def plan(ctx):
-    n = ctx.n(1500, 40000)
+    n = ctx.n(4000, 60000)
     return [('case', engine.stable_hash((ctx.seed, 'c19', i))) for i in range(n)]
 
 
